@@ -558,11 +558,17 @@ func init() {
 		// the package's source changed)
 		g.emit("builderprobe 1,5:100000;-:3000000;2,99:100")
 		g.emit("ofmanyprobe 300 40 %d", g.intn(1000))
+		g.emit("buildersetprobe 5,70000,64,1048576,1048575,63,16777216")
 		if g.thorough() {
 			g.emit("builderprobe 3:700000000;0,5:64;-:100000000;7:9")
 			g.emit("builderprobe -:715827800;1:100;2:715827800")
 			g.emit("builderprobe 0:1431655700;5:100")
 			g.emit("ofmanyprobe 30000 40 %d", g.intn(1000))
+			// positions around 2^30 and in the top word of the largest bitmap an int32 addresses
+			g.emit("buildersetprobe 3,1073741823,1073741824,1073741888")
+			g.emit("buildersetprobe 2147483582,7")
+			g.emit("buildersetprobe 2147483646,2147483584,2147483583,0")
+			g.emit("buildersetprobe 100,2147483600")
 			g.emit("ofmanyprobe 2000 600 %d", g.intn(1000))
 		}
 	}
@@ -685,12 +691,17 @@ func init() {
 		// ... and crossed while more than 1024 words are still live
 		g.emit("tb 0 65536 s134417,s140000,f0:65536,o,h134417,g134417,h140000,h65536,f65536:65600,o,h134417,c,o,h140000")
 		g.emit("tbprobe backfill 300")
+		g.emit("tbprobe backfill 1100000")
 		g.emit("tbprobe farbit 5000")
 		g.emit("tbprobe farbit 6000")
 		if g.thorough() {
 			g.emit("tbprobe backfill 5000")
 			g.emit("tbprobe backfill 66000")
 			g.emit("tbprobe farbit 300000")
+			// more than 2^20 complete words behind an incomplete word 0 (70 million Sets), a stored tail longer than
+			// 2^31 bits (a far bit beyond Offset + 2^31), more than 2^25 complete words dropped by one compaction
+			g.emit("tbprobe farbit 33554500")
+			g.emit("tbprobe backfill 33554500")
 			// more than 4096 complete words behind word 0, then word 0 is completed: one Set must move Offset
 			// past all of them
 			g.emit("tb 0 65536 F64:262784,o,h64,h262783,f0:63,o,s63,o,h262783,c,o,s262784,o")
